@@ -94,9 +94,9 @@ META["C02"] = {
 
 META["C17"] = {
     "category": "proof",
-    "design_ref": "DESIGN.md section 5 / C17",
-    "technique": "Lean 4: a trace monitor for InboxForwarding (recorded once and only if new; filter consulted about exactly the loaded collections and only after recording, loading an owned collection and an Owns-yes of the value search; payload = the received activity; recipients = members of the collections the filter kept; at most one BatchDeliver) proved to accept every run of the transcribed function for every application — induction over the recursion fuel of the depth-limited search, over the load loop with its deferred unlocks, and over the recipient loop. The same monitor runs over the real code's traces; the 'if' direction and the depth limit are decided per run by an oracle (ownsValueSpec) over the scenario's ground truth.",
-    "text": "Only-if direction, once-ness, unchanged payload and exact recipients: proved for all inputs/answers on the model. If-direction ('all three conditions hold => forwarded') and 'a repeated delivery is never forwarded again' across deliveries: oracle + replay on multi-delivery scenarios, not theorems.",
+    "design_ref": "DESIGN.md section 5 / C17 and section 9.5",
+    "technique": "Lean 4: (1) a trace monitor for InboxForwarding (recorded once and only if new; filter consulted about exactly the loaded collections and only after recording, loading an owned collection and an Owns-yes of the value search; payload = the received activity; recipients = members of the collections the filter kept; at most one BatchDeliver) proved to accept every run of the transcribed function for every application - induction over the recursion fuel of the depth-limited search, over the load loop with its deferred unlocks, and over the recipient loop; (2) the owned-value search refined to the declarative ownsValueSpec (some inReplyTo/object/target/tag value within d levels of the federation graph is owned) whenever it returns, by induction on fuel; (3) with the owned collections loaded, the activity is handed to the transport exactly when the search returns true (calls of the deterministic run). The same monitor and the same ownsValueSpec run over the real code's traces and the scenarios' ground truth.",
+    "text": "Only-if direction, once-ness, unchanged payload and exact recipients: proved for all inputs and all answers of the application (fwdMon). If direction: against an application without lock/transport faults that answers Owns from a table and Dereference from a fixed graph, the search returns ownsValueSpec (hasIFV_det) and, given the loaded owned collections, BatchDeliver is called iff the search succeeds (afterLoad_delivers). Not theorems: that the first two conditions lead to the load loop's continuation (the prefix of InboxForwarding under deterministic answers) and 'a repeated delivery is never forwarded again' across deliveries - oracle + replay on multi-delivery scenarios.",
     "note": "Known finding C17-member-ids (recipients are member ids, not inboxes) is printed as KNOWN-FINDING. Trusted: Lean kernel, transcription (replay-validated), fakes.",
 }
 
